@@ -523,6 +523,31 @@ int main(int argc, char** argv) {
     }
   }
 
+  // ================================================================= band edges at the easting limits, scanned in 25 m steps
+  {
+    ctx.sub("band-edges-limits");
+    ctx.bound("band-edges-limits", "zone (forced) x eastings {100, 101, 105, 111, 125, 150, 200, 500, 800, 850, 875, 889, 895, 899, 900} km x all 21 band lines (-80, -72, ..., 72, 84; the equator from both hemispheres): northing of the line by bisection on UTMUPS::Reverse, northing offsets -500 m .. +500 m in 25 m steps; band letter of both Forward overloads = band of the UTMUPS::Reverse latitude, and all other point predicates");
+    const double xk[] = {100, 101, 105, 111, 125, 150, 200, 500, 800, 850, 875, 889, 895, 899, 900};
+    for (int zone : zones) for (double xkm : xk) {
+      if (!ctx.take()) continue;
+      double x = xkm * 1000.0;
+      for (int b = 0; b <= 21; ++b) {
+        // b = 0..19: southern edge of band b; 20: northern edge of X (84); 21: the equator approached from the southern numbering
+        bool np; double yedge;
+        if (b == 10) { np = true; yedge = 0; }
+        else if (b == 21) { np = false; yedge = 10000000.0; }
+        else {
+          double edge = b == 20 ? 84 : utmref::band_south(b);
+          np = edge > 0;
+          double lo = np ? 0 : 1000000.0, hi = np ? 9500000.0 : 10000000.0;
+          for (int it = 0; it < 80; ++it) { double mid = 0.5 * (lo + hi), lat, lon; utm_lat(zone, np, x, mid, lat, lon); if (lat < edge) lo = mid; else hi = mid; }
+          yedge = hi;
+        }
+        for (int k = -20; k <= 20; ++k) check_point(ctx, zone, np, x, yedge + 25.0 * k, false, nullptr, "limit-");
+      }
+    }
+  }
+
   // ================================================================= band letter on a dense lattice (thorough tier only)
   if (T) {
     ctx.sub("band-lattice");
